@@ -204,6 +204,7 @@ func checkC15(p *Prog, r *Report) {
 	r.Floor("R5", "core-level subscriptions", nCoreSubs, 1)
 
 	r.Rule("R6", "unsubscribe keeps a handler ⇔ ¬(level ∧ handler equal); subscribe appends only after a miss of the same pair inside one critical section")
+	rebuildAtomic(p, ls, r, "R6", F("events.handlers"), 2)
 	applyRetain(p, r, "R6", "spine", "events", "unsubscribe", retainSpec{Field: F("events.handlers"), Required: map[string]string{"level": "=Level", "handler": "=Handler"}})
 	absenceThenInsert(p, ls, r, "R6", F("events.handlers"), true, 1)
 	c15ScanContent(p, ls, r)
